@@ -53,7 +53,10 @@ func (pkg *ParamFmtPackage) ReadFrom(ch BytesChannel) error {
 	}
 	n += 2
 
-	pkg.Fmts = make([]FieldFmt, int(paramsCount))
+	// The parameter count is sent by the server - let the slice grow
+	// with the parameters that are actually read instead of allocating
+	// it up front.
+	pkg.Fmts = []FieldFmt{}
 
 	for i := 0; i < int(paramsCount); i++ {
 		param, readBytes, err := pkg.ReadFromField(ch)
@@ -80,7 +83,7 @@ func (pkg *ParamFmtPackage) ReadFrom(ch BytesChannel) error {
 		}
 
 		n += readBytes
-		pkg.Fmts[i] = param
+		pkg.Fmts = append(pkg.Fmts, param)
 	}
 
 	if n > totalBytes {
